@@ -1,5 +1,4 @@
-import BoltonsVerif.C13.Proofs
-import BoltonsVerif.C13.Hygiene
+import BoltonsVerif.C13.Props
 import BoltonsVerif.Generated.Src_funcutils_fb
 /-
 C13 — source-translator tie (round 3c): `boltons.funcutils.FunctionBuilder`.
@@ -279,5 +278,298 @@ example : (FunctionBuilder.remove_arg
     (.error PyExc.ValueError,
       { conc ⟨7, none, none, [1, 2, 3], none, none, [20, 30], [4], [(4, 40)], [], none, false⟩ with exc_sub := 1 }) := by
   rfl
+
+/-! ### the decision logic of `update_wrapper`: the `injected` loop, the `expected` loop, the `call_name` loop -/
+
+abbrev UW := FunctionBuilder.update_wrapper_core.St Name Val
+
+/-- the candidate spellings `_call`, `__call`, … as the source builds them -/
+def cnOf (nm : PyRtC13.Names Name) : Nat → Name
+  | 0 => nm.lit ['_', 'c', 'a', 'l', 'l']
+  | j + 1 => nm.cat ['_'] (cnOf nm j)
+
+/-- a failed `remove_arg` raises `MissingArgument` and changes nothing; a successful one keeps `WfFB` -/
+theorem remove_cases (st : SrcFB) (fb : FB) (h : Rep st fb) (wf : WfFB fb) (x : Name) :
+    (∃ fb1 st1, fb.removeArg x = .ok fb1 ∧ FunctionBuilder.remove_arg st x = (.ok (), st1) ∧ Rep st1 fb1 ∧ WfFB fb1) ∨
+    (fb.removeArg x = .error .missingArgument ∧
+      FunctionBuilder.remove_arg st x = (.error PyExc.ValueError, { st with exc_sub := 1 })) := by
+  have hr := src_remove_arg_eq_model st fb h wf x
+  cases hm : fb.removeArg x with
+  | ok fb1 =>
+    rw [hm] at hr
+    rcases hres : FunctionBuilder.remove_arg st x with ⟨r, st1⟩
+    rw [hres] at hr
+    cases r with
+    | error e => simp [Ret] at hr
+    | ok u =>
+      left
+      exact ⟨fb1, st1, rfl, rfl, hr, (step_spec wf (.remove x) hm).1⟩
+  | error e =>
+    rw [hm] at hr
+    rcases hres : FunctionBuilder.remove_arg st x with ⟨r, st1⟩
+    rw [hres] at hr
+    have he : e = .missingArgument := by
+      unfold FB.removeArg at hm
+      split at hm
+      · cases hm
+      · split at hm
+        · cases hm
+        · cases hm; rfl
+    subst he
+    cases r with
+    | ok u => simp [Ret] at hr
+    | error e2 =>
+      right
+      simp only [Ret] at hr
+      exact ⟨rfl, by rw [hr.1, hr.2]⟩
+
+theorem add_cases (st : SrcFB) (fb : FB) (h : Rep st fb) (wf : WfFB fb) (z : Name) (d : Option Val) :
+    (∃ fb1 st1, fb.addArg z d = .ok fb1 ∧ FunctionBuilder.add_arg st z d false = (.ok (), st1) ∧ Rep st1 fb1 ∧
+      WfFB fb1) ∨
+    (fb.addArg z d = .error .existingArgument ∧
+      FunctionBuilder.add_arg st z d false = (.error PyExc.ValueError, { st with exc_sub := 2 })) := by
+  have hr := src_add_arg_eq_model st fb h wf z d false
+  cases hm : fb.addArg z d with
+  | ok fb1 =>
+    rw [hm] at hr
+    rcases hres : FunctionBuilder.add_arg st z d false with ⟨r, st1⟩
+    rw [hres] at hr
+    cases r with
+    | error e => simp [Ret] at hr
+    | ok u =>
+      left
+      exact ⟨fb1, st1, rfl, rfl, hr, (step_spec wf (.add z d false) hm).1⟩
+  | error e =>
+    rw [hm] at hr
+    rcases hres : FunctionBuilder.add_arg st z d false with ⟨r, st1⟩
+    rw [hres] at hr
+    have he : e = .existingArgument := by
+      unfold FB.addArg at hm
+      split at hm
+      · cases hm; rfl
+      · split at hm
+        · cases hm; rfl
+        · simp only [Bool.false_eq_true, if_false] at hm
+          split at hm <;> cases hm
+    subst he
+    cases r with
+    | ok u => simp [Ret] at hr
+    | error e2 =>
+      right
+      simp only [Ret] at hr
+      exact ⟨rfl, by rw [hr.1, hr.2]⟩
+
+section region
+variable [nm : PyRtC13.Names Name]
+
+/-- the `injected` loop is the model's `injectAll` -/
+theorem inject_loop (k kb : UW → Except PyExc Name × SrcFB) (kexc : PyExc → UW → Except PyExc Name × SrcFB)
+    (inj : List Name) : ∀ (s : UW) (fb : FB), Rep s.self fb → WfFB fb →
+    (∃ fb1 s1, injectAll s.inject_to_varkw fb inj = .ok fb1 ∧
+        FunctionBuilder.update_wrapper_core.loop1 k kb kexc inj s = k s1 ∧ Rep s1.self fb1 ∧ WfFB fb1 ∧
+        s1.expected_items = s.expected_items) ∨
+    (∃ s1, injectAll s.inject_to_varkw fb inj = .error .missingArgument ∧
+        FunctionBuilder.update_wrapper_core.loop1 k kb kexc inj s = kexc PyExc.ValueError s1 ∧ s1.self.exc_sub = 1) := by
+  induction inj with
+  | nil =>
+    intro s fb h wf
+    exact Or.inl ⟨fb, s, rfl, rfl, h, wf, rfl⟩
+  | cons x xs ih =>
+    intro s fb h wf
+    rcases remove_cases s.self fb h wf x with ⟨fb1, st1, hm, hs, h1, wf1⟩ | ⟨hm, hs⟩
+    · rcases ih { s with loc1 := x, self := st1 } fb1 h1 wf1 with ⟨fb2, s2, e1, e2, e3, e4, e5⟩ | ⟨s2, e1, e2, e3⟩
+      · left
+        refine ⟨fb2, s2, ?_, ?_, e3, e4, e5⟩
+        · simp only [injectAll, hm]; exact e1
+        · simp only [FunctionBuilder.update_wrapper_core.loop1, hs]; exact e2
+      · right
+        refine ⟨s2, ?_, ?_, e3⟩
+        · simp only [injectAll, hm]; exact e1
+        · simp only [FunctionBuilder.update_wrapper_core.loop1, hs]; exact e2
+    · by_cases hv : s.inject_to_varkw = true ∧ fb.varkw.isSome = true
+      · have hvk : s.self.varkw ≠ none := by
+          rw [h.varkw]; intro e; rw [e] at hv; simp at hv
+        have h' : Rep ({ s.self with exc_sub := 0 } : SrcFB) fb :=
+          ⟨h.name, h.args, h.defaults, h.kwonlyargs, h.kwonlydefaults, h.varargs, h.varkw, rfl⟩
+        rcases ih { s with loc1 := x, self := { s.self with exc_sub := 0 } } fb h' wf with
+          ⟨fb2, s2, e1, e2, e3, e4, e5⟩ | ⟨s2, e1, e2, e3⟩
+        · left
+          refine ⟨fb2, s2, ?_, ?_, e3, e4, e5⟩
+          · simp only [injectAll, hm, hv.1, hv.2, Bool.and_self, if_true]; simpa [hv.1] using e1
+          · simp only [FunctionBuilder.update_wrapper_core.loop1, hs]
+            rw [if_pos (show s.inject_to_varkw = true ∧ s.self.varkw ≠ none from ⟨hv.1, hvk⟩)]
+            exact e2
+        · right
+          refine ⟨s2, ?_, ?_, e3⟩
+          · simp only [injectAll, hm, hv.1, hv.2, Bool.and_self, if_true]; simpa [hv.1] using e1
+          · simp only [FunctionBuilder.update_wrapper_core.loop1, hs]
+            rw [if_pos (show s.inject_to_varkw = true ∧ s.self.varkw ≠ none from ⟨hv.1, hvk⟩)]
+            exact e2
+      · right
+        have hvk : ¬ (s.inject_to_varkw = true ∧ s.self.varkw ≠ none) := by
+          rw [h.varkw]; intro ⟨a, b⟩; apply hv; refine ⟨a, ?_⟩
+          cases hvv : fb.varkw with
+          | none => exact absurd hvv b
+          | some v => rfl
+        refine ⟨{ s with loc1 := x, self := { s.self with exc_sub := 1 } }, ?_, ?_, rfl⟩
+        · simp only [injectAll, hm]
+          have : (s.inject_to_varkw && fb.varkw.isSome) = false := by
+            cases hb : (s.inject_to_varkw && fb.varkw.isSome)
+            · rfl
+            · exfalso; apply hv; simpa using hb
+          rw [this]; rfl
+        · simp only [FunctionBuilder.update_wrapper_core.loop1, hs]
+          simp only [hvk, if_false, reduceIte]
+
+/-- the `expected` loop is the model's `expectAll` -/
+theorem expect_loop (k kb : UW → Except PyExc Name × SrcFB) (kexc : PyExc → UW → Except PyExc Name × SrcFB)
+    (exp : List (Name × Option Val)) : ∀ (s : UW) (fb : FB), Rep s.self fb → WfFB fb →
+    (∃ fb1 s1, expectAll fb exp = .ok fb1 ∧
+        FunctionBuilder.update_wrapper_core.loop2 k kb kexc exp s = k s1 ∧ Rep s1.self fb1 ∧ WfFB fb1) ∨
+    (∃ s1, expectAll fb exp = .error .existingArgument ∧
+        FunctionBuilder.update_wrapper_core.loop2 k kb kexc exp s = kexc PyExc.ValueError s1 ∧ s1.self.exc_sub = 2) := by
+  induction exp with
+  | nil =>
+    intro s fb h wf
+    exact Or.inl ⟨fb, s, rfl, rfl, h, wf⟩
+  | cons p ps ih =>
+    obtain ⟨z, d⟩ := p
+    intro s fb h wf
+    rcases add_cases s.self fb h wf z d with ⟨fb1, st1, hm, hs, h1, wf1⟩ | ⟨hm, hs⟩
+    · rcases ih { s with loc1 := z, loc2 := d, self := st1 } fb1 h1 wf1 with ⟨fb2, s2, e1, e2, e3, e4⟩ | ⟨s2, e1, e2, e3⟩
+      · left
+        refine ⟨fb2, s2, ?_, ?_, e3, e4⟩
+        · simp only [expectAll, hm]; exact e1
+        · simp only [FunctionBuilder.update_wrapper_core.loop2, hs]; exact e2
+      · right
+        refine ⟨s2, ?_, ?_, e3⟩
+        · simp only [expectAll, hm]; exact e1
+        · simp only [FunctionBuilder.update_wrapper_core.loop2, hs]; exact e2
+    · right
+      refine ⟨{ s with loc1 := z, loc2 := d, self := { s.self with exc_sub := 2 } }, ?_, ?_, rfl⟩
+      · simp only [expectAll, hm]
+      · simp only [FunctionBuilder.update_wrapper_core.loop2, hs]
+
+/-- the test of the `call_name` loop: the candidate is one of the names the model calls `takenNames` -/
+theorem taken_cond (st : SrcFB) (fb : FB) (h : Rep st fb) (c : Name) :
+    ((PyRt.contains (fb.argNames false) c = true) ∨ (decide (st.varargs = some c) = true) ∨
+      (decide (st.varkw = some c) = true) ∨ (decide (c = st.name) = true)) ↔ c ∈ fb.takenNames := by
+  rw [contains_iff, h.varargs, h.varkw, h.name]
+  simp only [FB.argNames, FB.takenNames, decide_eq_true_eq, List.mem_append, Bool.false_eq_true, if_false,
+    List.mem_singleton]
+  cases fb.varargs <;> cases fb.varkw <;> simp [eq_comm, or_assoc]
+
+/-- the `call_name` loop is the model's `pickFrom`, as long as the fuel lasts -/
+theorem call_loop (k kb : UW → Except PyExc Name × SrcFB) (kexc : PyExc → UW → Except PyExc Name × SrcFB)
+    (fb : FB) (wf : WfFB fb) : ∀ (fuel j n : Nat) (s : UW), Rep s.self fb → s.loc3 = cnOf nm j → fuel < n →
+    cnOf nm (pickFrom (cnOf nm) fb.takenNames fuel j) ∉ fb.takenNames →
+    FunctionBuilder.update_wrapper_core.loop3 k kb kexc n s =
+      k { s with loc3 := cnOf nm (pickFrom (cnOf nm) fb.takenNames fuel j) } := by
+  intro fuel
+  induction fuel with
+  | zero =>
+    intro j n s h hc hn hfree
+    obtain ⟨m, rfl⟩ : ∃ m, n = m + 1 := ⟨n - 1, by omega⟩
+    simp only [pickFrom] at hfree ⊢
+    simp only [FunctionBuilder.update_wrapper_core.loop3, src_get_arg_names_eq_model s.self fb h wf false]
+    rw [if_neg (by rw [taken_cond s.self fb h, hc]; exact hfree), ← hc]
+  | succ fuel ih =>
+    intro j n s h hc hn hfree
+    obtain ⟨m, rfl⟩ : ∃ m, n = m + 1 := ⟨n - 1, by omega⟩
+    simp only [FunctionBuilder.update_wrapper_core.loop3, src_get_arg_names_eq_model s.self fb h wf false]
+    by_cases ht : cnOf nm j ∈ fb.takenNames
+    · have hcont : fb.takenNames.contains (cnOf nm j) = true := by simpa using ht
+      simp only [pickFrom, hcont, if_true] at hfree ⊢
+      rw [if_pos (by rw [taken_cond s.self fb h, hc]; exact ht)]
+      rw [ih (j + 1) m { s with loc3 := PyRtC13.Names.cat ['_'] s.loc3 } h (by simp only [hc]; rfl) (by omega) hfree]
+    · have hcont : ¬ (fb.takenNames.contains (cnOf nm j) = true) := by simpa using ht
+      simp only [pickFrom, hcont, Bool.false_eq_true, if_false] at hfree ⊢
+      rw [if_neg (by rw [taken_cond s.self fb h, hc]; exact ht), ← hc]
+
+/-- **the decision logic of `update_wrapper`, as translated from the source, is the model's**: the `injected` loop is
+    `injectAll` (a missing name is skipped when `inject_to_varkw` and there is a `**kw`, else `MissingArgument`), the
+    `expected` loop is `expectAll` (`ExistingArgument`), and the name the collision loop returns is the model's
+    `pickCall` - for every fuel above the number of taken names the loop ends (no `OutOfFuel`) -/
+theorem src_update_wrapper_core_eq_model (st : SrcFB) (fb : FB) (h : Rep st fb) (wf : WfFB fb) (inj : List Name)
+    (exp : List (Name × Option Val)) (itv : Bool) (lfuel : Nat)
+    (hinj : ∀ i j, cnOf nm i = cnOf nm j → i = j) :
+    match injectAll itv fb inj with
+    | .error _ => ∃ st1, FunctionBuilder.update_wrapper_core lfuel st inj exp itv = (.error PyExc.ValueError, st1) ∧
+        st1.exc_sub = 1
+    | .ok fb1 =>
+      match expectAll fb1 exp with
+      | .error _ => ∃ st1, FunctionBuilder.update_wrapper_core lfuel st inj exp itv = (.error PyExc.ValueError, st1) ∧
+          st1.exc_sub = 2
+      | .ok fb2 => fb2.takenNames.length < lfuel →
+          ∃ st2, FunctionBuilder.update_wrapper_core lfuel st inj exp itv =
+            (.ok (pickCall (cnOf nm) fb2.takenNames), st2) ∧ Rep st2 fb2 ∧ WfFB fb2 := by
+  simp only [FunctionBuilder.update_wrapper_core, FunctionBuilder.update_wrapper_core.body]
+  rcases inject_loop _ _ _ inj (⟨st, inj, exp, itv, default, none, default⟩ : UW) fb h wf with
+    ⟨fb1, s1, e1, e2, e3, e4, e5⟩ | ⟨s1, e1, e2, e3⟩
+  · simp only at e1 e5
+    rw [e1, e2]
+    simp only [e5]
+    rcases expect_loop _ _ _ exp s1 fb1 e3 e4 with ⟨fb2, s2, f1, f2, f3, f4⟩ | ⟨s2, f1, f2, f3⟩
+    · rw [f1, f2]
+      intro hl
+      have hfree := pickCall_fresh (cnOf nm) hinj fb2.takenNames
+      unfold pickCall at hfree
+      rw [call_loop _ _ _ fb2 f4 fb2.takenNames.length 0 lfuel
+        { s2 with loc3 := PyRtC13.Names.lit ['_', 'c', 'a', 'l', 'l'] } f3 rfl hl hfree]
+      exact ⟨s2.self, rfl, f3, f4⟩
+    · rw [f1, f2]
+      exact ⟨s2.self, rfl, f3⟩
+  · simp only at e1
+    rw [e1, e2]
+    exact ⟨s1.self, rfl, e3⟩
+
+/-- the property theorem `callee_reaches_wrapper` (Props.lean) about what the SOURCE computes: whenever the two
+    loops go through, the name the translated collision loop returns is - inside the function `get_func` then
+    compiles - neither a parameter nor the function's own name nor `_func`, so the body calls the user's wrapper -/
+theorem src_call_name_reaches_wrapper (st : SrcFB) (fb : FB) (h : Rep st fb) (wf : WfFB fb) (inj : List Name)
+    (exp : List (Name × Option Val)) (itv : Bool) (lfuel : Nat)
+    (hinj : ∀ i j, cnOf nm i = cnOf nm j → i = j) (funcKey : Name) (hk : ∀ k, cnOf nm k ≠ funcKey)
+    (fb1 fb2 : FB) (h1 : injectAll itv fb inj = .ok fb1) (h2 : expectAll fb1 exp = .ok fb2)
+    (hl : fb2.takenNames.length < lfuel) :
+    ∃ c st2, FunctionBuilder.update_wrapper_core lfuel st inj exp itv = (.ok c, st2) ∧ Rep st2 fb2 ∧
+      resolve (fb2.args ++ fb2.varargs.toList ++ fb2.kwonlyargs ++ fb2.varkw.toList) c funcKey fb2.name =
+        .userWrapper := by
+  have hm := src_update_wrapper_core_eq_model st fb h wf inj exp itv lfuel hinj
+  rw [h1] at hm
+  simp only at hm
+  rw [h2] at hm
+  obtain ⟨st2, e, r, _⟩ := hm hl
+  exact ⟨_, st2, e, r, callee_reaches_wrapper (cnOf nm) hinj funcKey hk fb2⟩
+
+end region
+
+/-- non-vacuity: names are numbers, `_call` is 100 and a prefixed `_` adds one -/
+@[reducible] def nmEx : PyRtC13.Names Name := ⟨fun _ => (100 : Nat), fun _ (n : Nat) => n + 1⟩
+
+theorem cnOf_nmEx (i : Nat) : cnOf nmEx i = (100 + i : Nat) := by
+  induction i with
+  | zero => rfl
+  | succ i ih =>
+    show (cnOf nmEx i : Nat) + 1 = 100 + (i + 1)
+    rw [ih]; rfl
+
+theorem cnOf_nmEx_injective : ∀ i j, cnOf nmEx i = cnOf nmEx j → i = j := by
+  intro i j e
+  rw [cnOf_nmEx, cnOf_nmEx] at e
+  exact Nat.add_left_cancel e
+
+/-- Wrapping `f(1, 100, *, 4=40, **9)` with `injected=[1, 8]` (8 is absent: skipped because of `**9`) and
+    `expected=[(101, no default)]`: the loop has to skip `_call` (= 100, a parameter) and `__call` (= 101, the expected
+    argument) and returns `___call` -/
+example :
+    (@FunctionBuilder.update_wrapper_core Name Val _ _ _ nmEx 10
+        (conc ⟨7, none, none, [1, 100], none, some 9, [], [4], [(4, 40)], [], none, false⟩) [1, 8] [(101, none)] true).1
+      = .ok 102 := by rfl
+/-- without `**kw` the missing name is `MissingArgument` (tag 1); the first removal has happened -/
+example :
+    (@FunctionBuilder.update_wrapper_core Name Val _ _ _ nmEx 10
+        (conc ⟨7, none, none, [1, 100], none, none, [], [4], [(4, 40)], [], none, false⟩) [1, 8] [(101, none)] true)
+      = (.error PyExc.ValueError,
+          { conc ⟨7, none, none, [100], none, none, [], [4], [(4, 40)], [], none, false⟩ with exc_sub := 1 }) := by rfl
 
 end C13
